@@ -109,7 +109,7 @@ def r2_results(ctx):
     for p in paths:
         a1, a2 = _find_job(p, "job1"), _find_job(p, "job2")
         if p.exit[0] != "return" or a1 is None:
-            ctx.undecided("C18.R2", loc(fi), f"handle_controller on a model report: {p.exit[0]}")
+            ctx.violation("C18.R2", fi.qual, loc(fi), "report handled", f"a well-formed controller report for a known job makes handle_controller end with {p.exit[0]} {vkey(p.exit[1])[:80] if p.exit[0] == 'raise' else ''}")
             continue
         if a1.fields["results"] != {D: b"x", D2: b"y"} or (a2 is not None and a2.fields["results"]):
             ctx.violation("C18.R2", fi.qual, loc(fi), "result attribution",
